@@ -11,6 +11,7 @@ import PoetryVerif.Proofs.MarkerPrintDom
 import PoetryVerif.Proofs.MarkerEval
 import PoetryVerif.Proofs.MarkerPrintPy
 import PoetryVerif.Proofs.MarkerAlgSoundFullC
+import PoetryVerif.Proofs.MarkerPrint4
 import PoetryVerif.Proofs.PyConvPairFinal
 import PoetryVerif.Proofs.PyConvPairCompat
 
@@ -312,5 +313,67 @@ theorem algebra_print_parse_fullC {ex : List String} (hX : E.extras = some ex) {
 /-- `python_version ~= "3.8"` prints as itself -/
 example : (M.toStr (.leaf (.single (pvCompatOf 3 8)))).toOption = some "python_version ~= \"3.8\"" := by
   decide +kernel
+
+/-! ### the four-operator string fragment and version lists -/
+
+/-- **Marker text with all four string operators, no hypothesis**: markers over `==` / `!=` / `"v" in name` /
+`"v" not in name` leaves on the string variables (quotable values; the `not in` values pairwise comparable by
+containment), `extra`, and the python leaves with the seven operators: `str(m)` is parsed back to the tree of `m`,
+`_compact_markers` rebuilds a marker of the domain that validates to the truth value of `m`; and the same for the
+results of `intersect` / `union` (`isUnion`). -/
+theorem print_parse_four_operators {C : String → Prop}
+    (hC : ∀ u v, C u → C v → Generic.strIn u v = true ∨ Generic.strIn v u = true)
+    {ex : List String} (hX : E.extras = some ex) {X Y Z : Nat} (hE : EnvPy E X Y Z) :
+    (∀ {m : M} {t : Syn}, M.Good (FullQ4 C E) m → M.toSyn m = some t →
+      ∃ s, M.toStr m = .ok s ∧ parseText s = .ok t ∧
+        ∃ m', compactRaw t = .ok m' ∧ M.Good (FullQ4 C E) m' ∧ M.validate E m' = .ok (M.sem (leafEval E) m)) ∧
+    (∀ {a b r : M} {isUnion : Bool}, M.Good (FullQ4 C E) a → M.Good (FullQ4 C E) b →
+      (if isUnion then mUnion fuel stk a b else mIntersect fuel stk a b) = .ok r →
+      M.Good (FullQ4 C E) r ∧ M.sem (leafEval E) r =
+        (if isUnion then (M.sem (leafEval E) a || M.sem (leafEval E) b)
+          else (M.sem (leafEval E) a && M.sem (leafEval E) b))) := by
+  have S := leafSpec_fullQ4 hC hX hE (pairSound_pyC hE)
+  refine ⟨fun {m t} hg h => ?_, fun {a b r isUnion} ha hb hr => ?_⟩
+  · obtain ⟨s, h1, h2, m', h3, h4, h5⟩ :=
+      M.parseText_toStr S (printOK_fullQ4 hX) (fun l hl => lexable_fullQ4 l hl) hg h
+    refine ⟨s, h1, h2, m', h3, h4, ?_⟩
+    rw [M.validate_eq_sem E m' (M.good_mono (fun l hl => fullQ4_evaluable hX hE hl) m' h4)]
+    exact congrArg _ h5
+  · cases isUnion
+    · simp only [Bool.false_eq_true, if_false] at hr ⊢
+      exact mIntersect_sound S ha hb hr
+    · simp only [if_true] at hr ⊢
+      exact mUnion_sound S ha hb hr
+
+/-- **Marker text with `python_version` lists, no hypothesis** (markers without `python_full_version` leaves): as
+above for four-operator strings, `extra`, and `python_version` with the seven operators and `in` / `not in` lists. -/
+theorem print_parse_lists {C : String → Prop}
+    (hC : ∀ u v, C u → C v → Generic.strIn u v = true ∨ Generic.strIn v u = true)
+    {ex : List String} (hX : E.extras = some ex) {X Y : Nat}
+    (hE : E.get? "python_version" = some (Version.relText [X, Y])) :
+    (∀ {m : M} {t : Syn}, M.Good (FullQL C E) m → M.toSyn m = some t →
+      ∃ s, M.toStr m = .ok s ∧ parseText s = .ok t ∧
+        ∃ m', compactRaw t = .ok m' ∧ M.Good (FullQL C E) m' ∧ M.validate E m' = .ok (M.sem (leafEval E) m)) ∧
+    (∀ {a b r : M} {isUnion : Bool}, M.Good (FullQL C E) a → M.Good (FullQL C E) b →
+      (if isUnion then mUnion fuel stk a b else mIntersect fuel stk a b) = .ok r →
+      M.Good (FullQL C E) r ∧ M.sem (leafEval E) r =
+        (if isUnion then (M.sem (leafEval E) a || M.sem (leafEval E) b)
+          else (M.sem (leafEval E) a && M.sem (leafEval E) b))) := by
+  have S := leafSpec_fullQL hC hX hE
+  refine ⟨fun {m t} hg h => ?_, fun {a b r isUnion} ha hb hr => ?_⟩
+  · obtain ⟨s, h1, h2, m', h3, h4, h5⟩ :=
+      M.parseText_toStr S (printOK_fullQL hX) (fun l hl => lexable_fullQL l hl) hg h
+    refine ⟨s, h1, h2, m', h3, h4, ?_⟩
+    rw [M.validate_eq_sem E m' (M.good_mono (fun l hl => fullQL_evaluable hX hE hl) m' h4)]
+    exact congrArg _ h5
+  · cases isUnion
+    · simp only [Bool.false_eq_true, if_false] at hr ⊢
+      exact mIntersect_sound S ha hb hr
+    · simp only [if_true] at hr ⊢
+      exact mUnion_sound S ha hb hr
+
+/-- `"a" in sys_platform` prints as itself and is a leaf of the printable four-operator domain -/
+example : (M.toStr (.leaf (.single ⟨"sys_platform", "in", "a", true, .gen (.s (.atom ⟨"a", .in_, false⟩))⟩))).toOption =
+    some "\"a\" in sys_platform" := by decide +kernel
 
 end Poetry.C13
